@@ -147,3 +147,15 @@ class AssumptionNotMet(Exception):
 def json_roundtrip(v):
     import json
     return json.loads(json.dumps(v))
+
+
+def iter_source(it):
+    return getattr(it, '_src', None)
+
+
+def iter_pos(it):
+    return getattr(it, '_pos', None)
+
+
+def exc_listed(classes, exc):
+    return bool(classes) and isinstance(exc, tuple(classes))
